@@ -1400,6 +1400,9 @@ static int wcoll_arg_process (char *arg, opt_t *opt)
                 opt->wcoll = hostlist_create ("");
 
             get_host_rcmd_type (p, &rcmd_type, &hosts, &user);
+            if (user && strlen (user) > login_name_max_len ())
+                errx ("%p: Fatal: username '%s' exceeds max username length (%d)\n",
+                      user, login_name_max_len ());
             hostlist_push (opt->wcoll, hosts);
             if (rcmd_type || user) {
                 if (rcmd_register_defaults (hosts, rcmd_type, user) < 0)
